@@ -86,6 +86,12 @@ impl Interpreter {
 
     fn executer_assignment(config: &SmartCalcConfig, session: &Session, variable: Rc<VariableInfo>, expression: Rc<SmartCalcAstType>) -> Result<Rc<SmartCalcAstType>, String> {
         let computed  = Interpreter::execute_ast(config, session, expression)?;
+
+        /* An expression without a value (a name that never received one) leaves the binding as it is */
+        if let SmartCalcAstType::None = computed.deref() {
+            return Ok(computed);
+        }
+
         *variable.data.borrow_mut() = computed.clone();
         Ok(computed)
     }
